@@ -472,7 +472,8 @@ var notCovered = map[string][]string{
 		"Values() order and the AST of the rule; `enum: @name` vs the inline list through the loader",
 	},
 	"C02": {
-		"schema scanner, loader, compiler, checker and OpenAPI conversion are not under contract: their panics are not excluded",
+		"loader, compiler, checker and OpenAPI conversion are not under contract: their panics are not excluded",
+		"schema scanner: run-time panics are excluded in every state function, the two closures, Next (first call at or before the end of the text; later calls are not covered), the queue and stack operations and New; Length() is NOT covered (its bound needs the push-down discipline of the event stack, which the thin invariant does not carry); explicit error-valued panics are allowed exits",
 		"enum rule scanner: run-time panics are excluded in every state method, Next and the queue/stack operations; explicit error-valued panics (empty-stack Pop, json.Guess on an unclassifiable literal inside validateValue) and enum.Enum's own methods (compile, Values, Len) are not",
 		"stack depth and memory exhaustion (the model has unbounded memory and recursion depth)",
 		"known finding: Number scanner exponent magnitude above 2^40 (make with a huge length)",
@@ -512,7 +513,10 @@ var notCovered = map[string][]string{
 		"tree equality with an independent decoder; of Len() only the bound Len(S) <= len(S) and the absence of out-of-range reads are proved",
 	},
 	"C13": {"Number.String(); known findings: 0eN rejected, exponents above 2^40"},
-	"C16": {"positions produced by the schema scanner and loader themselves (only the index -> line/column computation and rendering are proved)"},
+	"C16": {
+		"schema scanner: every panic it raises is proved to be an error value, and a positioned one points inside the text; WHICH byte it points at is not specified",
+		"positions produced by the loader, compiler and checker (taken from lexemes); for these only the index -> line/column computation and the rendering are proved",
+	},
 	"C18": {"regexp.Compile is external (uninterpreted validRE); example generation from the regex"},
 	"C19": {"MarshalJSON of the ordered maps; NewRuleASTNodes / NewStringSet API preconditions"},
 	"C20": {"agreement of the integer/float split of GuessSchemaType with the JSON scanner's classifier"},
